@@ -1,5 +1,7 @@
 FIX_COMMITS = ["d6ae502 (passive start-up cancellation: port/listener leak)",
-               "40b0ee0 (data connection not closed when open() fails or is cancelled)"]
+               "40b0ee0 (data connection not closed when open() fails or is cancelled)",
+               "5c25b75 (ABOR before the data connection killed the session)",
+               "4aed819 (ABOR unanswered when the worker had just finished)"]
 
 ENV_NOTE = ("Trusted base: the environment model (vf/simloop.py: selector, TCP, clock, executor) and the harness-side "
             "oracles; the code explored is the unmodified aioftp imported from /repo/src. Bounds are stated in the "
@@ -21,6 +23,24 @@ CHECKS = [
              "handles), asyncio.all_tasks and the connection table are audited; then server.close() must complete.",
      "design_ref": "DESIGN.md §5 C12", "note": ENV_NOTE,
      "technique": "exhaustive fault-point enumeration x deviation-bounded stateless schedule exploration of the implementation"},
+    {"property_id": "C13", "level": "fault_enumeration",
+     "text": "For every script of the corpus (all verbs that reach the backend, all transfer kinds) and every k, the "
+             "k-th backend call of the session raises OSError (single fault), or every call of that operation kind "
+             "from k on raises (repeated fault), on the in-memory and the blocking filesystem backend (thorough: also "
+             "the executor backend and <= 1 schedule deviation), with a second healthy session interleaved; the "
+             "affected command must end in 451 with no success reply, a started transfer's data socket must be closed "
+             "(SimNet ledger), PWD and a fresh RETR must work afterwards and the other session's transcript must equal "
+             "its solo run.",
+     "design_ref": "DESIGN.md §5 C13", "note": ENV_NOTE,
+     "technique": "exhaustive fault-point enumeration over the implementation on a deterministic event loop"},
+    {"property_id": "C14", "level": "model_checking",
+     "text": "ABOR is injected glued to the transfer verb and after every network event counted from it, for RETR/STOR/"
+             "APPE/LIST/MLSD, file sizes around block multiples, with and without a data connection, on an immediate "
+             "and a slow backend with a lock-step send window, under every schedule with <= 1 deviation, followed by "
+             "each kind of follow-up; the reply sequence, data-socket closure, prefix property and follow-up behaviour "
+             "are checked on every execution.",
+     "design_ref": "DESIGN.md §5 C14", "note": ENV_NOTE,
+     "technique": "exhaustive abort-position enumeration x deviation-bounded stateless schedule exploration of the implementation"},
 ]
 
 _ALL = [f"C{i:02d}" for i in range(1, 21)]
